@@ -92,6 +92,9 @@ Definition gen_divergence (g : gdiv) (a : Q) (d1 d2 : dist) (rvs : option (list 
   let l := pmfs_like d1 d2 X in
   let '(e1, e2) := match g with GAlpha => ((1 - a) / 2, (1 + a) / 2) | _ => (a, 1 - a) end in
   if dps_inf e2 l then XInf else
+  (* a negative first exponent (alpha divergence with alpha > 1): p^e1 is infinite wherever p = 0 < q, on ANY outcome of q
+     (textbook value; dit only looks at the outcomes stored in p: known finding C06-alpha-zero-p) *)
+  if negb (Qle_bool 0 e1) && existsb (fun qp => pos (fst qp) && negb (pos (snd qp))) (pmfs_like d2 d1 X) then XInf else
   (* no common support on p's outcomes: the power sum is 0 and log2 0 / (a-1) = +inf for a < 1 *)
   if (match g with GRenyi => true | _ => false end) && negb (existsb (fun pq => pos (fst pq) && pos (snd pq)) l)
   then (if Qle_bool a 1 then XInf else XInf) else
